@@ -11,6 +11,7 @@
    Hypotheses.  `wf_chain c`: consensus results have the shape FinalizeBlock produces; `NoDup (chain_hashes c)`:
    admitted Ethereum transactions have distinct hashes (nonces).  Both are evaluated (`chain_hyps`) on every chain
    of the driver inside Coq, and checked by the driver's Go oracle on the raw results. *)
+From Coq Require Import Lia.
 From Evm Require Import Indexer IndexerProofs.
 Open Scope Z_scope.
 
@@ -148,33 +149,87 @@ Print Assumptions C14_index_independent_of_announcements.
 
 (* ------------------------------------------------------------------ 4. crash convergence *)
 
-(* Any number of service lives, each killed after an arbitrary number of batch writes (i_kill) while the node grew
-   from i_start to i_end, the last one running to the head: the database is IDENTICAL to that of the uninterrupted
-   run that began when the node was at s0.  Hypothesis sched_ok: a life that begins with an EMPTY index DB begins
-   with the node exactly where the indexer had got to.  (Blocks without Ethereum transactions leave no key: after a
-   restart with a non-empty DB they are indexed again - harmless by idempotence, part of this proof.) *)
+(* A service history is a list of lives `SL (Inc start end kill) startfail plan`: the process starts when the node is at
+   `start`, the node grows to `end` while it runs, the process is killed after `kill` batch writes; `startfail` = Status
+   or Subscribe returned an error (OnStart returns before anything is read or written); `plan` = for each height the
+   outcomes (true = error) of the successive Block(h) and BlockResults(h) calls of the node client during this life.
+   `tolerable L`: during catch-up (heights <= start) no height is fetched in vain more than 10 times; heights fetched by
+   the live loop (> start) may fail ANY number of times.
+
+   Any number of lives, each killed at an arbitrary write boundary, each over a node client that fails transiently in
+   an arbitrary pattern, the last one running to the head: the database is IDENTICAL to that of the uninterrupted run
+   over a node that always answers, begun when the node was at s0.  Hypothesis ssched_ok: a life that begins with an
+   EMPTY index DB begins with the node exactly where the indexer had got to (lives that fail to start are exempt).
+   (Blocks without Ethereum transactions leave no key: after a restart with a non-empty DB they are indexed again -
+   harmless by idempotence, part of this proof.) *)
 Theorem C14_crash_converges_partial : forall c earliest s0 l fin,
+  earliest <= 1 -> 0 <= s0 -> s0 <= Z.of_nat (length c) ->
+  (forall L, In L (l ++ [fin]) -> tolerable L) ->
+  ssched_ok c earliest [] s0 (l ++ [fin]) = true ->
+  sl_startfail fin = false ->
+  i_end (sl_inc fin) = Z.of_nat (length c) -> Z.of_nat (length c) <= Z.of_nat (i_kill (sl_inc fin)) ->
+  slife_run c earliest (l ++ [fin]) = run_from c s0.
+Proof. exact crash_converges_rpc. Qed.
+Print Assumptions C14_crash_converges_partial.
+
+(* the special case of a node that always answers (lives = kill points only) *)
+Theorem C14_crash_converges_node_always_answers : forall c earliest s0 l fin,
   earliest <= 1 -> 0 <= s0 -> s0 <= Z.of_nat (length c) ->
   sched_ok c earliest [] s0 (l ++ [fin]) = true ->
   i_end fin = Z.of_nat (length c) -> Z.of_nat (length c) <= Z.of_nat (i_kill fin) ->
   life c earliest (l ++ [fin]) = run_from c s0.
 Proof. exact crash_converges. Qed.
-Print Assumptions C14_crash_converges_partial.
+Print Assumptions C14_crash_converges_node_always_answers.
 
-(* The full statement - every physically possible history (node height never decreases), no condition on the DB being
-   empty at a restart - is FALSE of the faithful model: OnStart resumes from the node's LATEST height when the DB is
-   empty, so a block committed while the indexer was down (or being indexed when it was killed) is skipped.
+(* per life and from ANY database: transient failures of the node client leave no trace in the index - the life writes
+   exactly what it writes over a node that always answers (a failed fetch is retried at the same height) *)
+Theorem C14_transient_rpc_failures_leave_no_trace : forall c earliest d L, tolerable L -> sl_startfail L = false ->
+  run_slife c earliest d L = run_incarnation c earliest d (sl_inc L).
+Proof. exact rpc_failures_invisible. Qed.
+Print Assumptions C14_transient_rpc_failures_leave_no_trace.
+
+(* failures in the live new-block loop only (none planned for the catch-up heights): no bound on their number *)
+Theorem C14_live_loop_failures_leave_no_trace : forall c earliest d L,
+  (forall h, h <= i_start (sl_inc L) -> failures (sl_plan L) h = 0%nat) -> sl_startfail L = false ->
+  run_slife c earliest d L = run_incarnation c earliest d (sl_inc L).
+Proof. exact live_loop_failures_invisible. Qed.
+Print Assumptions C14_live_loop_failures_leave_no_trace.
+
+(* the cursor never moves past a height that was not handed to IndexBlock: in a loop that does not exceed the start-up
+   threshold and is not killed, every entry of every block between the cursor and the target is in the database *)
+Theorem C14_cursor_never_passes_an_unindexed_height : forall c start p n d cur bud H b k v,
+  (forall i, cur < i <= cur + Z.of_nat n -> skips start p i = false) -> (n <= bud)%nat ->
+  0 <= cur -> cur < H <= cur + Z.of_nat n -> block_at c H = Some b -> In (k, v) (index_block H b) ->
+  db_get k (svc_run c start p d cur bud n) <> None.
+Proof. exact no_height_skipped. Qed.
+Print Assumptions C14_cursor_never_passes_an_unindexed_height.
+
+(* The full statement for a node that always answers - every physically possible history (node height never decreases),
+   no condition on the DB being empty at a restart - is FALSE of the faithful model: OnStart resumes from the node's
+   LATEST height when the DB is empty, so a block committed while the indexer was down (or being indexed when it was
+   killed) is skipped.
    Known finding C14/indexer/empty-db-restart-skips-committed-block, reproduced on the real EVMIndexerService. *)
 Definition C14_crash_converges_full : Prop := crash_converges_full.
 Theorem C14_crash_converges_refuted : ~ C14_crash_converges_full.
 Proof. exact crash_converges_refuted. Qed.
 Print Assumptions C14_crash_converges_refuted.
 
-(* ... but it only LOSES entries: after EVERY history (no hypothesis on the schedule at all) every answer of the index
-   is an answer of the uninterrupted index, hence (C14_index_answers_are_real) the real position of a real transaction *)
+(* The statement without the bound on catch-up failures (`tolerable` dropped, ssched_ok kept) is FALSE of the faithful
+   model as well: while the indexer is not yet marked ready, the 11th failed fetch of a height makes the service give up
+   on it (the retries follow each other without any delay); a later block with an Ethereum transaction then moves the
+   resume point past it and no restart returns to it.
+   Known finding C14/indexer/startup-gives-up-after-11-failed-fetches, reproduced on the real EVMIndexerService. *)
+Definition C14_crash_converges_any_node_failures_full : Prop := crash_converges_rpc_full.
+Theorem C14_crash_converges_any_node_failures_refuted : ~ C14_crash_converges_any_node_failures_full.
+Proof. exact crash_converges_rpc_refuted. Qed.
+Print Assumptions C14_crash_converges_any_node_failures_refuted.
+
+(* ... but both only LOSE entries: after EVERY history (no hypothesis on schedule or node failures at all) every answer
+   of the index is an answer of the uninterrupted index, hence (C14_index_answers_are_real) the real position of a real
+   transaction *)
 Theorem C14_any_history_only_real_answers : forall c, wf_chain c = true -> NoDup (chain_hashes c) ->
-  forall earliest l h r, get_by_hash (life c earliest l) h = Some r -> get_by_hash (run c) h = Some r.
-Proof. exact any_history_answers_are_real. Qed.
+  forall earliest l h r, get_by_hash (slife_run c earliest l) h = Some r -> get_by_hash (run c) h = Some r.
+Proof. exact any_rpc_history_answers_are_real. Qed.
 Print Assumptions C14_any_history_only_real_answers.
 
 (* the boolean checks evaluated on every harness chain give the hypotheses used above *)
@@ -236,6 +291,47 @@ Example C14_example_empty_restart_skips :
   get_by_hash (life ex_chain 1 [Inc 0 1 1; Inc 2 3 9]) 11 = None /\
   get_by_hash (run ex_chain) 11 = Some (Res 2 0 0 false) /\
   get_by_hash (life ex_chain 1 [Inc 0 1 1; Inc 2 3 9]) 15 = Some (Res 3 0 0 false).
+Proof. vm_compute. repeat split. Qed.
+
+(* a history with node failures that satisfies every hypothesis of C14_crash_converges_partial (chain: ex_chain plus a
+   fourth block with one executed tx): the first life (node at 0, growing to 2) sees Block(2) fail twice in its live loop
+   and is killed after two batches; the second fails at Status; the third (node at 4) catches up from block 2 with
+   Block(3) failing once and BlockResults(3) nine times (10 failed passes), then Block(4) answering, BlockResults(4)
+   failing, Block(4) failing, and both answering; the result is the uninterrupted index *)
+Definition ex_four : txv :=
+  Tx true true true 16 25000 106 true [EvEth true; EvRc (Rc 0 4 false 1 21000 21000 None 0 false)].
+Definition ex_chain4 : chain := ex_chain ++ [[ex_four]].
+Definition ex_plan : list hplan := [HP 3 [true] (repeat true 9); HP 4 [false; true] [true]].
+Definition ex_history : list slife :=
+  [SL (Inc 0 2 2) false [HP 2 [true; true] []]; SL (Inc 3 3 9) true []] ++ [SL (Inc 4 4 9) false ex_plan].
+
+Example C14_example_node_failures :
+  chain_hyps ex_chain4 = true /\
+  ssched_ok ex_chain4 1 [] 0 ex_history = true /\
+  (forall L, In L ex_history -> tolerable L) /\
+  slife_run ex_chain4 1 ex_history = run ex_chain4 /\
+  failures ex_plan 3 = 10%nat /\ failures ex_plan 4 = 2%nat.
+Proof.
+  split; [vm_compute; reflexivity|]. split; [vm_compute; reflexivity|]. split; [|vm_compute; repeat split].
+  intros L HL h _. unfold startup_failure_threshold.
+  cbn in HL. repeat (destruct HL as [<-|HL]; [unfold failures, plan_at; cbn [sl_plan find hp_height hp_block hp_results ex_plan];
+    repeat (match goal with |- context [?a =? h] => destruct (a =? h) end); vm_compute; lia|]). contradiction.
+Qed.
+
+(* one more failed fetch of block 3 during catch-up and the service gives up on it: block 4 is indexed, the resume point
+   is past block 3, and another (undisturbed) life does not bring its transaction back *)
+Definition ex_history_gives_up : list slife :=
+  [SL (Inc 0 2 2) false []; SL (Inc 4 4 9) false [HP 3 [true] (repeat true 10)]; SL (Inc 4 4 9) false []].
+(* the same failures met in the live loop (the node is at 2 when the life starts) are retried for as long as it takes *)
+Definition ex_history_live : list slife :=
+  [SL (Inc 0 2 2) false []; SL (Inc 2 4 9) false [HP 3 [true] (repeat true 10)]].
+
+Example C14_example_startup_gives_up :
+  ssched_ok ex_chain4 1 [] 0 ex_history_gives_up = true /\
+  get_by_hash (slife_run ex_chain4 1 ex_history_gives_up) 15 = None /\
+  get_by_hash (run ex_chain4) 15 = Some (Res 3 0 0 false) /\
+  get_by_hash (slife_run ex_chain4 1 ex_history_gives_up) 16 = Some (Res 4 0 0 false) /\
+  slife_run ex_chain4 1 ex_history_live = run ex_chain4.
 Proof. vm_compute. repeat split. Qed.
 
 Example C14_example_any_order :
